@@ -1,4 +1,4 @@
-(* Proofs/SafeTerm.v — Filters.safe_name terminates (recursion depth <= 12) whenever the
+(* Proofs/SafeTerm.v — Filters.safe_name terminates (recursion depth <= 15) whenever the
    first ASCII alphanumeric character of the safe prefix is a letter; it recurses for
    ever for some prefixes that merely *contain* a letter. *)
 From Coq Require Import NArith PeanoNat List Bool Lia String.
@@ -89,9 +89,9 @@ Qed.
 Lemma slug_alpha_nonempty s : slug_alpha s = true -> s <> [].
 Proof. intros H E. subst. discriminate. Qed.
 
-Lemma reserved_short r : is_reserved r = true -> (List.length r <= 8)%nat.
+Lemma reserved_short r : is_reserved r = true -> (List.length r <= 11)%nat.
 Proof.
-  assert (T : forallb (fun w => Nat.leb (List.length w) 8) stop_words = true) by (vm_compute; reflexivity).
+  assert (T : forallb (fun w => Nat.leb (List.length w) 11) stop_words = true) by (vm_compute; reflexivity).
   unfold is_reserved, str_in. rewrite existsb_exists. intros [w [Hin He]].
   apply str_eqb_eq in He. subst. rewrite forallb_forall in T. apply Nat.leb_le. apply T. exact Hin.
 Qed.
@@ -105,9 +105,9 @@ Section Term.
   Proof. unfold prefix_ok, slug_alpha in Hp. destruct (alnum p); [discriminate|cbn; lia]. Qed.
 
   (* once the slug starts with a letter, every further call appends the prefix and
-     lengthens the slug; reserved words have at most 8 characters *)
+     lengthens the slug; reserved words have at most 11 characters (XmlDateTime) *)
   Lemma term_core n : forall name,
-    slug_alpha name = true -> (9 <= List.length (alnum name) + n)%nat ->
+    slug_alpha name = true -> (12 <= List.length (alnum name) + n)%nat ->
     exists r, safe_name (S n) p (apply_case k) name = SOk r.
   Proof.
     induction n as [|n IH]; intros name Ha Hl.
@@ -127,7 +127,7 @@ Section Term.
   Qed.
 
   Theorem safe_name_terminates_ge n name :
-    (11 <= n)%nat -> exists r, safe_name (S n) p (apply_case k) name = SOk r.
+    (14 <= n)%nat -> exists r, safe_name (S n) p (apply_case k) name = SOk r.
   Proof.
     intros Hn.
     destruct (slug_alpha name) eqn:Ea.
@@ -154,9 +154,9 @@ Proof.
   destruct (is_reserved x); [apply IH; exact H|exact H].
 Qed.
 
-Theorem safe_name_terminates_12 p k name :
-  prefix_ok p = true -> exists r, safe_name 12 p (apply_case k) name = SOk r.
-Proof. intros Hp. apply (safe_name_terminates_ge p k Hp 11 name). lia. Qed.
+Theorem safe_name_terminates_15 p k name :
+  prefix_ok p = true -> exists r, safe_name 15 p (apply_case k) name = SOk r.
+Proof. intros Hp. apply (safe_name_terminates_ge p k Hp 14 name). lia. Qed.
 
 Theorem safe_name_terminates p k name :
   prefix_ok p = true -> exists r, safe_name safe_fuel p (apply_case k) name = SOk r.
